@@ -193,7 +193,11 @@ fn show(ev: &[Ev]) -> String {
 
 pub fn judge(c: &Case) -> Verdict {
     AS_SETS.with(|s| s.set(c.term.has_path_effects()));
+    lazy::UNMODELLED.with(|u| u.set(false));
     let m = run_model(c);
+    if lazy::UNMODELLED.with(|u| u.get()) {
+        return Verdict::Inconclusive("the program indexes with a value that is no integer: not modelled".into());
+    }
     let want = m.outs.len();
     // pull one more than the model has (to see the end), but never beyond K - and not at all
     // beyond the model's outputs when the definitional trace itself does not end within its
@@ -361,7 +365,46 @@ impl G<'_> {
                 _ => T::Dot,
             };
         }
-        match self.rng.usize(38) {
+        match self.rng.usize(43) {
+            41 | 42 => {
+                // an outer label left from inside an inner label that is bound afresh on every round
+                // of a recursive definition: `break $a` must reach `$a` however often the
+                // definition has called itself, and the hazard behind it stays untouched
+                let a = self.fresh("l");
+                let b = self.fresh("l");
+                let k = self.rng.range(1, 4);
+                let step = T::Pipe(bx(T::PDot), bx(T::Inc));
+                let which = self.rng.usize(3);
+                // (every round performs an effect, so that a program that goes round for ever
+                // uses up its fuel instead of hanging)
+                let inner = match self.rng.usize(4) {
+                    0 => T::If(C::Ge(k), bx(T::Break(a.clone())), bx(step)),
+                    1 => T::If(C::Ge(k), bx(T::Comma(bx(T::PDot), bx(T::Break(a.clone())))), bx(step)),
+                    2 => T::If(C::Ge(k), bx(T::Break(a.clone())), bx(T::Comma(bx(step), bx(T::Break(b.clone()))))),
+                    _ => T::Comma(bx(T::If(C::Ge(k), bx(T::Break(a.clone())), bx(step))), bx(T::Break(b.clone()))),
+                };
+                let body = T::Label(b, bx(inner));
+                let gen = match which {
+                    0 => T::Recurse(bx(body)),
+                    1 => T::While(C::True, bx(body)),
+                    _ => T::Until(C::False, bx(body)),
+                };
+                let tail = self.hazard();
+                T::Label(a, bx(T::Comma(bx(T::Pipe(bx(T::Lit(V::Int(0))), bx(gen))), bx(tail))))
+            }
+            38..=40 => {
+                // value constructors over a stream: cartesian products must stay lazy
+                let a = self.stream(d - 1);
+                let h = self.hazard();
+                let e = bx(T::Comma(bx(a), bx(h)));
+                match self.rng.usize(5) {
+                    0 => T::Interp(e),
+                    1 => T::ObjVal(e),
+                    2 => T::AddR(e, self.rng.range(0, 3)),
+                    3 => T::AddL(self.rng.range(0, 3), e),
+                    _ => T::EqLit(e, self.rng.range(0, 3)),
+                }
+            }
             36 | 37 => {
                 let pd = 1 + self.rng.usize(3) as u32;
                 T::PathOf(bx(self.path_term(pd)))
@@ -780,7 +823,8 @@ fn well_scoped(t: &T, vars: &mut Vec<String>, labels: &mut Vec<String>) -> bool 
         }
         T::TryQ(a) | T::First(a) | T::Limit(_, a) | T::Skip(_, a) | T::Nth(_, a) | T::IsEmpty(a) | T::Any(a, _)
         | T::All(a, _) | T::Arr(a) | T::Rec(a) | T::Repeat(a) | T::Recurse(a) | T::While(_, a) | T::Until(_, a)
-        | T::SliceTo(_, a) | T::IndexAt(a) | T::PathOf(a) | T::IdxZ(a) => well_scoped(a, vars, labels),
+        | T::SliceTo(_, a) | T::IndexAt(a) | T::PathOf(a) | T::IdxZ(a) | T::Interp(a) | T::ObjVal(a) | T::AddR(a, _)
+        | T::AddL(_, a) | T::EqLit(a, _) => well_scoped(a, vars, labels),
         _ => true,
     }
 }
@@ -1044,7 +1088,8 @@ pub fn check(cfg: &Cfg) -> Result<i32, Harness> {
     evaluations += tally.get("process_runs");
     violations.extend(proc_viol);
     let inconclusive = tally.get("inconclusive");
-    if inconclusive * 50 > evaluations {
+    // (violations are reported first: a tree that breaks the property usually disagrees on values too)
+    if violations.is_empty() && inconclusive * 50 > evaluations {
         return Err(Harness(format!(
             "{inconclusive} of {evaluations} cases inconclusive (model and tree disagree on output values): {:?}",
             tally.0.iter().filter(|(k, _)| k.starts_with("inconclusive:")).collect::<Vec<_>>()
@@ -1112,6 +1157,7 @@ fn term_tags(t: &T) -> BTreeSet<&'static str> {
             T::PathOf(_) => "path_mode",
             T::Idx(_) | T::Iter | T::Pass(_) => "leaf",
             T::IdxZ(_) => "path_position",
+            T::Interp(_) | T::ObjVal(_) | T::AddR(..) | T::AddL(..) | T::EqLit(..) => "value_constructor",
         });
         match t {
             T::Comma(a, b) | T::Pipe(a, b) | T::Alt(a, b) | T::Try(a, b) | T::As(a, _, b) | T::If(_, a, b) => {
@@ -1120,7 +1166,8 @@ fn term_tags(t: &T) -> BTreeSet<&'static str> {
             }
             T::TryQ(a) | T::Label(_, a) | T::First(a) | T::Limit(_, a) | T::Skip(_, a) | T::Nth(_, a) | T::IsEmpty(a)
             | T::Any(a, _) | T::All(a, _) | T::Arr(a) | T::Rec(a) | T::Repeat(a) | T::Recurse(a) | T::While(_, a)
-            | T::Until(_, a) | T::SliceTo(_, a) | T::IndexAt(a) | T::PathOf(a) | T::IdxZ(a) => go(a, s),
+            | T::Until(_, a) | T::SliceTo(_, a) | T::IndexAt(a) | T::PathOf(a) | T::IdxZ(a) | T::Interp(a) | T::ObjVal(a)
+            | T::AddR(a, _) | T::AddL(_, a) | T::EqLit(a, _) => go(a, s),
             T::Foreach(a, _, _, u, e) => {
                 go(a, s);
                 go(u, s);
